@@ -161,6 +161,23 @@ def make_cases(tier):
     base.append(A.case("c08null-lazy", A.file([A.stanza(qm, [A.node(sv("shared"))]),
                                                A.stanza(qm, [A.attrn(sv("shared"), A.attr("a", A.null()))]),
                                                A.stanza(qm, [A.attrn(sv("shared"), A.attr("a", A.integer(1)))])]), 2, "lazy"))
+    # the scope of a definition named through a local variable whose value reads a scoped variable of another stanza; an edge created
+    # by two stanzas of which one also gives it an attribute right after creating it
+    base.append(A.case("c08scope-lazy", A.file([
+        A.stanza(qm, [A.let(sv("owner"), A.cap("m"))]),
+        A.stanza(qm, [A.let(A.var("o"), sv("owner")), A.let(A.svar(A.var("o"), "flag"), A.true()), A.node(A.var("n")), A.attrn(A.var("n"), A.attr("f", A.svar(A.var("o"), "flag")))]),
+        A.stanza(qm, [A.node(A.var("k")), A.attrn(A.var("k"), A.attr("g", A.svar(A.cap("m"), "flag")))]),
+    ]), 2, "lazy"))
+    base.append(A.case("c08merge-lazy", A.file([
+        A.stanza(qm, [A.node(sv("a")), A.node(sv("b"))]),
+        A.stanza(qm, [A.edge(sv("a"), sv("b"))]),
+        A.stanza(qm, [A.edge(sv("a"), sv("b")), A.attre(sv("a"), sv("b"), A.attr("k", A.integer(1)))]),
+    ]), 2, "lazy"))
+    base.append(A.case("c08merge2-lazy", A.file([
+        A.stanza(qm, [A.node(sv("a")), A.node(sv("b")), A.edge(sv("a"), sv("b")), A.attre(sv("a"), sv("b"), A.attr("first", A.integer(1)))]),
+        A.stanza(qm, [A.edge(sv("a"), sv("b")), A.attre(sv("a"), sv("b"), A.attr("k", A.integer(1)))]),
+        A.stanza(qm, [A.edge(sv("b"), sv("a")), A.attre(sv("b"), sv("a"), A.attr("back", A.integer(1))), A.edge(sv("a"), sv("b"))]),
+    ]), 5, "lazy"))
     # a stanza whose query is the bare wildcard, in every position of the file
     base.append(A.case("c08wild-lazy", A.file([
         A.stanza("(pass_statement) @p ", [A.node(A.svar(A.cap("p"), "n"))]),
